@@ -17,6 +17,7 @@ from fst import FST, fst_core
 
 PROPERTY = 'C12'
 THOROUGH_SCALE = 2.0
+THOROUGH_STRIDE = 3        # thorough tier = all quick cells + every 3th thorough-only cell (sized to run end-to-end; '--cells' reaches the others)
 
 
 class Boom(Exception):
